@@ -1552,6 +1552,14 @@ func (i *Interpreter) executeFunctionWithValues(fn Function, argVals []interface
 			return nil, fmt.Errorf("missing required argument %s in function %s", param.Name, fn.Name)
 		}
 
+		// As in executeFunction: a whole float given for an int parameter is
+		// that integer (x |> f must not differ from f(x)).
+		if fVal, ok := argVal.(float64); ok {
+			if _, isInt := param.TypeAnnotation.(IntType); isInt && fVal == float64(int64(fVal)) {
+				argVal = int64(fVal)
+			}
+		}
+
 		// Validate argument type matches parameter type annotation
 		skipTypeCheck := argVal == nil && !param.Required
 		if param.TypeAnnotation != nil && !skipTypeCheck {
